@@ -173,6 +173,7 @@ func (u *Unit) runBody(st *State, body []ast.Stmt) {
 				e := u.specEv(st, u.bodyPos)
 				t := e.evSpec(c.Text)
 				u.defs = append(u.defs, t.S)
+				u.tagDef(t.S, n)
 				g.Assumed["axiom "+n+" (definitional property of a ghost predicate): "+c.Text] = true
 			}
 			// raw SMT-LIB: `decl (declare-fun ...)` and `smt <closed formula>` (facts about ghost
@@ -188,6 +189,7 @@ func (u *Unit) runBody(st *State, body []ast.Stmt) {
 			}
 			for _, c := range ab.clauses("smt") {
 				u.defs = append(u.defs, c.Text)
+				u.tagDef(c.Text, n)
 				g.Assumed["axiom "+n+" (assumed fact about a ghost function, raw SMT): "+c.Text] = true
 			}
 		}
@@ -293,6 +295,7 @@ func (u *Unit) finish() {
 			continue
 		}
 		o := u.addMerged(fmt.Sprintf("%s/ensures#%s", u.contractID(), name), clauseProps(b, c), parts, c.Text)
+		o.dropAxioms = u.axiomsNotUsed(b, c.Name)
 		o.Inputs = append(append([]ModelVar{}, u.inputs...), u.g.replayInputs(u)...)
 	}
 	// panic clauses
@@ -566,6 +569,11 @@ func (o *Obligation) queryV(g *Gen, withModel bool, variant int) string {
 		for _, d := range o.unit.defs {
 			if variant > 0 && isHeavyHyp(d) {
 				continue
+			}
+			if o.dropAxioms != nil {
+				if ax, ok := o.unit.defTag[d]; ok && o.dropAxioms[ax] {
+					continue
+				}
 			}
 			if variant > 2 && strings.HasPrefix(d, "(forall (") && strings.Contains(d, "(not (fresh$ ") {
 				continue
@@ -940,4 +948,34 @@ func (u *Unit) filterPC(b *Block, name string, pc []string) []string {
 		out = append(out, h)
 	}
 	return out
+}
+
+func (u *Unit) tagDef(d, axiom string) {
+	if u.defTag == nil {
+		u.defTag = map[string]string{}
+	}
+	u.defTag[d] = axiom
+}
+
+// axiomsNotUsed: with a `uses NAME: ...` list, the user axiom blocks of the unit that the list
+// does not mention are left out of that obligation as well.
+func (u *Unit) axiomsNotUsed(b *Block, name string) map[string]bool {
+	if name == "" {
+		return nil
+	}
+	for _, c := range b.clauses("uses") {
+		parts := strings.SplitN(c.Text, ":", 2)
+		if len(parts) != 2 || strings.TrimSpace(parts[0]) != name {
+			continue
+		}
+		drop := map[string]bool{}
+		for _, ax := range u.defTag {
+			drop[ax] = true
+		}
+		for _, a := range strings.Fields(parts[1]) {
+			delete(drop, a)
+		}
+		return drop
+	}
+	return nil
 }
